@@ -13,14 +13,15 @@ import numpy as np
 META = dict(
     id='C28',
     level_text='Kernel-checked invariant theorems for the occ/chemorder state machine (any cell size, species count and '
-               'history), now for the WHOLE op language: setocc/fill/POSCAR_occ, group operations carrying a site '
-               'permutation (imul/mul: every value lands at its image), reorder (a mapping accepted by __sane__ is proved '
-               'to be a genuine permutation of every species list, given one map per species), copy, and the POSCAR round '
+               'history), for the WHOLE op language: setocc/fill/POSCAR_occ, group operations carrying a site '
+               'permutation (imul/mul: every value lands at its image), reorder (a mapping accepted by the length guard '
+               'and __sane__ is proved to be a genuine permutation of every species list), copy, and the POSCAR round '
                'trip (reproduces occupation and presentation order exactly); run_inv: every cell of every store reachable '
                'by any op list stays consistent, hence passes the source\'s __sane__ (reachable_sane). The setocc species '
-               'guard is translated from the source on every run and the whole op language is run differentially against '
-               'real Supercell objects. Not covered by the theorems (counterexample proved in C28More.lean): reorder with '
-               'fewer maps than species, which zip-truncates chemorder while still passing __sane__.',
+               'guard is translated from the source on every run and the whole op language, including reorder with too '
+               'few / too many maps, is run differentially against real Supercell objects. reorderZip_truncates proves '
+               'that without the length guard (source before 69f613b, finding F41) a consistent cell can become '
+               'inconsistent while still passing __sane__.',
     level_note='Trusted: Lean kernel + standard axioms; the ast translator of the guard; the harness. Modelled not verified: '
                'numpy indexing, Supercell.index position lookup and float parsing in POSCAR_occ.',
     technique='Lean 4 invariant proof by induction over the op language + ast-translated guard obligation + differential op sequences',
@@ -32,12 +33,14 @@ META = dict(
               'Onsager.C28.imul_occ', 'Onsager.C28.imul_chemorder', 'Onsager.C28.imul_inv',
               'Onsager.C28.inv_sane', 'Onsager.C28.sane_inv', 'Onsager.C28.inv_iff_sane',
               'Onsager.C28.reorder_perm', 'Onsager.C28.reorder_inv', 'Onsager.C28.reorder_rejects',
+              'Onsager.C28.reorder_rejects_length', 'Onsager.C28.reorderZip_perm', 'Onsager.C28.reorderZip_truncates',
               'Onsager.C28.setoccMany_vacant', 'Onsager.C28.poscar_roundtrip',
               'Onsager.C28.applyOp_inv', 'Onsager.C28.run_inv', 'Onsager.C28.reachable_sane'],
     tie_theorems=['Onsager.C28.src_guard_is_spec', 'Onsager.C28.src_setocc_eq_spec'],
     rule='op sequences on real Supercell objects (bounded-exhaustive over setocc with species -2..Nchem+1 on a '
          '2-site cell, then random sequences of setocc/setitem/fillperiodic/imul/mul/reorder/copy/POSCAR on '
-         'several crystals); a case is one sequence; non-trivial = contains at least one state-changing op; '
+         'several crystals, plus directed reorder sessions with fewer / more maps than chemistries followed by placing '
+         'every species); a case is one sequence; non-trivial = contains at least one state-changing op; '
          'distinct by the op text',
     trusted=['Python ast extraction of the setocc guard (harness/props/c28.py: extract)',
              'float parsing in POSCAR_occ and position lookup Supercell.index are exercised, not modelled'],
@@ -228,6 +231,10 @@ def _rand_op(rng, im, malformed):
             if malformed and p and rng.random() < 0.3:
                 p[rng.randrange(len(p))] = rng.randrange(len(p) + 1)
             mp.append(p)
+        if malformed and rng.random() < 0.35:
+            # not one map per chemistry: fewer (down to none) or more maps than species lists
+            if mp and rng.random() < 0.6: mp = mp[:rng.randrange(len(mp))]
+            else: mp = mp + [rng.choice(([], [0]))] * rng.randint(1, 2)
         return ('reorder', s, mp)
     if r < 0.90: return ('copy', s, rng.randrange(ns))
     return ('poscar', s, rng.randrange(ns))
@@ -251,6 +258,30 @@ def _oracle(ctx, im, op, status, before, hist, cfgname):
         if not (-1 <= c < im.nchem):
             if status == 'ok': viol('undeclared-accepted:%s' % _class(op, im), 'undeclared species %d accepted (Nchem=%d)' % (c, im.nchem))
             elif im.show() != before: viol('undeclared-mutates:%s' % _class(op, im), 'rejected species %d still changed the state' % c)
+    if op[0] == 'reorder' and status == 'ok':
+        # a reorder that returns normally only changes the presentation order: still one list per chemistry,
+        # the same occupation, and every declared species can still be placed on every kind of site
+        sup = im.slots[op[1]]
+        nmaps = 'short' if len(op[2]) < im.nchem else ('long' if len(op[2]) > im.nchem else 'exact')
+        if len(sup.chemorder) != im.nchem:
+            viol('reorder-chemorder-length:%s' % nmaps,
+                 'reorder(%s) returned normally and left %d species lists for Nchem=%d' % (op[2], len(sup.chemorder), im.nchem))
+        elif _show_l(sup.occ) != before.split(' | ')[op[1]].split(' ')[0]:
+            viol('reorder-changes-occ', 'reorder changed the occupation')
+        else:
+            sites = sorted({int(np.argmax(sup.occ == v)) for v in set(int(x) for x in sup.occ)})
+            for i in sites:
+                for c in range(-1, im.nchem):
+                    cp = sup.copy()
+                    try:
+                        cp.setocc(i, c)
+                        bad = None if (cp.__sane__() and int(cp.occ[i]) == c) else 'inconsistent state'
+                    except Exception as e:
+                        bad = _err(e)
+                    if bad is not None:
+                        viol('reorder-species-unplaceable:%s' % nmaps,
+                             'after reorder(%s) declared species %d cannot be placed on site %d: %s' % (op[2], c, i, bad))
+                        return
     if op[0] == 'poscar' and status == 'ok':
         a, b = im.slots[op[1]], im.slots[op[2]]
         if list(a.occ) != list(b.occ) or a.chemorder != b.chemorder:
@@ -336,7 +367,32 @@ def run(ctx):
         sessions.append((name + ('-mal' if malformed else ''), crys, sl, inter, nsol, 3,
                          [(lambda im, m=malformed: _rand_op(rng, im, m)) for _ in range(length)]))
     ctx.count('random-sessions', nrand)
+    sessions += _reorder_length_sessions(cfgs)
     _run_sessions(ctx, sessions)
+
+
+def _reorder_length_sessions(cfgs):
+    """Directed malformed stream: reorder with fewer / more maps than chemistries, on cells where the species
+    without a map hold no atoms (so that __sane__ alone cannot notice), followed by placing every species."""
+    out = []
+    for name, crys, sl, inter, nsols in cfgs:
+        for nsol in nsols:
+            nchem = crys.Nchem + nsol
+            ident = lambda im, k: [list(range(len(cl))) for cl in im.slots[0].chemorder[:k]]
+            place = [('setocc', 0, 0, c, 0) for c in range(nchem - 1, -2, -1)]
+            for nocc in range(0, nchem):        # species 0..nocc-1 hold atoms, maps given for 0..k-1
+                pre = [('setocc', 0, c, c, 0) for c in range(nocc)]
+                for k in range(nocc, nchem):
+                    out.append((name + '-short', crys, sl, inter, nsol, 1,
+                                pre + [lambda im, k=k: ('reorder', 0, ident(im, k))] + place))
+                if nocc > 0:
+                    # a map is missing for a species that does hold atoms: must be rejected, state unchanged
+                    out.append((name + '-short-occupied', crys, sl, inter, nsol, 1,
+                                pre + [lambda im, k=nocc - 1: ('reorder', 0, ident(im, k))] + place))
+                for extra in ([[]], [[0]], [[], []]):
+                    out.append((name + '-long', crys, sl, inter, nsol, 1,
+                                pre + [lambda im, e=extra: ('reorder', 0, ident(im, len(im.slots[0].chemorder)) + e)] + place))
+    return out
 
 
 def search(ctx, reasons):
@@ -350,4 +406,5 @@ def search(ctx, reasons):
             for t in range(40):
                 sessions.append((name + '-search', crys, sl, inter, nsol, 3,
                                  [(lambda im: _rand_op(rng, im, True)) for _ in range(40)]))
+    sessions += _reorder_length_sessions(cfgs)
     _run_sessions(ctx, sessions)
